@@ -11,9 +11,10 @@ import (
 
 var zzPH = common.Uint256{0x99, 0x01}
 
-// zzProposal: a proposal with n budget stages 0..n-1 (stage 0 the imprest, the
-// last one the final payment, normal payments between, as the registration
-// check demands) of arbitrary amounts in [0, 2^60], registered in c under
+// zzProposal: a proposal with n budget stages (an imprest at stage 0 or none,
+// the last one the final payment, normal payments between, listed in either
+// order, as the registration check admits) of arbitrary amounts in [0, 2^60],
+// registered in c under
 // zzPH with the given status, and an arbitrary bookkeeping that satisfies the
 // representation invariant
 //
@@ -23,6 +24,13 @@ var zzPH = common.Uint256{0x99, 0x01}
 //
 // (ZZ_C29_step shows that every tracking / withdrawal step preserves it).
 func zzProposal(c *Committee, n int, status ProposalStatus) *ProposalState {
+	return zzProposalShaped(c, n, status, nd.Tier() > 0)
+}
+
+// zzProposalShaped: as zzProposal; the budget list takes the unusual shapes
+// (no imprest, descending order) only when freeShape is set (C29 harnesses and
+// the thorough tier)
+func zzProposalShaped(c *Committee, n int, status ProposalStatus, freeShape bool) *ProposalState {
 	p := &ProposalState{Status: status, CRVotes: map[common.Uint168]payload.VoteResult{},
 		WithdrawnBudgets: map[uint8]common.Fixed64{}, WithdrawableBudgets: map[uint8]common.Fixed64{}, BudgetsStatus: map[uint8]BudgetStatus{},
 		ProposalOwner: zzCRKey(3), Recipient: common.Uint168{0x21, 0x4E}, TrackingCount: nd.U8("trackingCount"),
@@ -33,14 +41,28 @@ func zzProposal(c *Committee, n int, status ProposalStatus) *ProposalState {
 	p.Proposal.OwnerPublicKey = zzCRKey(3)
 	p.Proposal.Recipient = p.Recipient
 	nd.Assume(p.TrackingCount < 128)
+	// shapes the registration check admits: with an imprest the stages are
+	// 0..n-1, without one they are 1..n; the payload may list them in any
+	// order (the check sorts a copy), here ascending or descending
+	first, descending := 0, false
+	if freeShape {
+		if nd.Bool("noImprest") {
+			first = 1
+		}
+		descending = nd.Bool("budgetsListedDescending")
+	}
 	for i := 0; i < n; i++ {
-		b := payload.Budget{Stage: byte(i), Type: payload.NormalPayment, Amount: zzCRAmount("budgetAmount")}
-		if i == 0 {
+		b := payload.Budget{Stage: byte(first + i), Type: payload.NormalPayment, Amount: zzCRAmount("budgetAmount")}
+		if i == 0 && first == 0 {
 			b.Type = payload.Imprest
 		} else if i == n-1 {
 			b.Type = payload.FinalPayment
 		}
-		p.Proposal.Budgets = append(p.Proposal.Budgets, b)
+		if descending {
+			p.Proposal.Budgets = append([]payload.Budget{b}, p.Proposal.Budgets...)
+		} else {
+			p.Proposal.Budgets = append(p.Proposal.Budgets, b)
+		}
 		bs := BudgetStatus(nd.U8("budgetStatus"))
 		nd.Assume(bs <= Closed)
 		p.BudgetsStatus[b.Stage] = bs
@@ -106,17 +128,140 @@ func zzTracking(p *ProposalState) (*zzCRTx, payload.CRCProposalTrackingType) {
 	tt := payload.CRCProposalTrackingType(nd.Choose("trackingType", 6))
 	stage := nd.U8("stage")
 	_, withdrawable := p.WithdrawableBudgets[stage]
+	stageType, finalStage, known := payload.InstallmentType(0xff), uint8(0), false
+	for _, b := range p.Proposal.Budgets {
+		if b.Stage == stage {
+			stageType, known = b.Type, true
+		}
+		if b.Type == payload.FinalPayment {
+			finalStage = b.Stage
+		}
+	}
 	switch tt {
 	case payload.Progress:
-		nd.Assume(int(stage) < n && !withdrawable && p.Proposal.Budgets[stage].Type == payload.NormalPayment)
+		nd.Assume(int(stage) < n && known && !withdrawable && stageType == payload.NormalPayment)
 	case payload.Rejected:
 		nd.Assume(int(stage) < n && !withdrawable)
 	case payload.Terminated:
 		nd.Assume(stage == 0)
 	case payload.Finalized:
-		nd.Assume(int(stage) == n-1)
+		nd.Assume(stage == finalStage)
 	}
 	return &zzCRTx{typ: common2.CRCProposalTracking, id: common.Uint256{0x22, 0x10}, pld: &payload.CRCProposalTracking{
 		ProposalHash: zzPH, Stage: stage, ProposalTrackingType: tt, OwnerKey: p.ProposalOwner, NewOwnerKey: zzCRKey(4)}}, tt
 }
 
+// zzUpdateScenario: the state for one per-block proposal update (see
+// ZZ_C22_updateproposals): the proposal under zzPH, the target of close /
+// change-owner proposals under {0x99, 0x02}, and whether the block lies in
+// an election period.
+func zzUpdateScenario() (c *Committee, p, target *ProposalState, status ProposalStatus, inElection bool) {
+	cfg := zzCRConfig()
+	cfg.CRConfiguration.ProposalCRVotingPeriod = 10
+	cfg.CRConfiguration.ProposalPublicVotingPeriod = 10
+	cfg.CRConfiguration.CRAgreementCount = 1
+	cfg.CRConfiguration.VoterRejectPercentage = 10
+	c = zzCommittee(cfg)
+	c.CirculationAmount = 1000
+	c.CRCCommitteeUsedAmount = zzCRAmount("committeeUsedAmount")
+	c.NeedRecordProposalResult = nd.Bool("needRecordBefore")
+	if nd.Bool("resultsBefore") {
+		c.PartProposalResults = []payload.ProposalResult{{ProposalHash: common.Uint256{0x44}, Result: true}}
+	}
+	status = Registered
+	if nd.Bool("crAgreed") {
+		status = CRAgreed
+	}
+	p = zzProposal(c, 2, status)
+	p.RegisterHeight = zzH - 10
+	p.VoteStartHeight = zzH - 10
+	if nd.Bool("periodNotOver") {
+		p.RegisterHeight, p.VoteStartHeight = zzH-9, zzH-9
+	}
+	if nd.Bool("approved") {
+		p.CRVotes[common.Uint168{0x67, 0x31}] = payload.Approve
+	}
+	if nd.Bool("vetoed") {
+		p.VotersRejectAmount = 2000
+	} else {
+		p.VotersRejectAmount = 0
+	}
+	// the target of close-proposal / change-proposal-owner
+	// the target: agreed and running (imprest withdrawable), or already
+	// finished / terminated with its normal payment never approved
+	target = &ProposalState{Status: []ProposalStatus{VoterAgreed, Finished, Terminated}[nd.Choose("targetStatus", 3)],
+		CRVotes: map[common.Uint168]payload.VoteResult{}, WithdrawnBudgets: map[uint8]common.Fixed64{},
+		WithdrawableBudgets: map[uint8]common.Fixed64{0: 5}, BudgetsStatus: map[uint8]BudgetStatus{0: Withdrawable, 1: Unfinished, 2: Unfinished},
+		ProposalOwner: zzCRKey(8), Recipient: common.Uint168{0x21, 0x50}}
+	target.Proposal.Budgets = []payload.Budget{{Stage: 0, Type: payload.Imprest, Amount: 5}, {Stage: 1, Type: payload.NormalPayment, Amount: zzCRAmount("targetNormal")},
+		{Stage: 2, Type: payload.FinalPayment, Amount: zzCRAmount("targetFinal")}}
+	if target.Status == Finished {
+		target.WithdrawableBudgets[2] = target.Proposal.Budgets[2].Amount
+		target.BudgetsStatus[1], target.BudgetsStatus[2] = Closed, Withdrawable
+	} else if target.Status == Terminated {
+		target.BudgetsStatus[1], target.BudgetsStatus[2] = Closed, Closed
+		target.TerminatedHeight = zzH - 20
+	}
+	th := common.Uint256{0x99, 0x02}
+	target.Proposal.Hash = th
+	c.manager.Proposals[th] = target
+	m := c.manager
+	switch nd.Choose("proposalType", 7) {
+	case 0:
+	case 1:
+		p.Proposal.ProposalType = payload.ReceiveCustomID
+		p.Proposal.ReceivedCustomIDList = []string{"bb"}
+		m.PendingReceivedCustomIDMap["bb"] = struct{}{}
+		m.PendingReceivedCustomIDMap["aa"] = struct{}{}
+		m.ReceivedCustomIDLists = []string{"dd"}
+	case 2:
+		p.Proposal.ProposalType = payload.ReserveCustomID
+		p.Proposal.ReservedCustomIDList = []string{"rr"}
+		m.ReservedCustomID = true
+		if nd.Bool("listsReservedBefore") {
+			m.ReservedCustomIDLists = []string{"qq"}
+		}
+	case 3:
+		p.Proposal.ProposalType = payload.RegisterSideChain
+		p.Proposal.SideChainName = "s1"
+		p.Proposal.MagicNumber = 11
+		p.Proposal.GenesisHash = common.Uint256{0x61}
+		m.RegisteredSideChainNames = []string{"s0", "s1", "s2"}
+		m.RegisteredMagicNumbers = []uint32{10, 11, 12}
+		m.RegisteredGenesisHashes = []common.Uint256{{0x60}, {0x61}, {0x62}}
+		if nd.Bool("sideChainRegisteredAtThisHeight") {
+			m.RegisteredSideChainPayloadInfo[zzH] = map[common.Uint256]payload.SideChainInfo{{0x31}: {SideChainName: "s9"}}
+		}
+	case 4:
+		p.Proposal.ProposalType = payload.SecretaryGeneral
+		p.Proposal.SecretaryGeneralPublicKey = zzCRKey(9)
+		m.SecretaryGeneralPublicKey = "0011"
+	case 5:
+		p.Proposal.ProposalType = payload.CloseProposal
+		p.Proposal.TargetProposalHash = th
+	default:
+		p.Proposal.ProposalType = payload.ChangeProposalOwner
+		p.Proposal.TargetProposalHash = th
+		p.Proposal.NewOwnerPublicKey = zzCRKey(10)
+		if nd.Bool("newRecipient") {
+			p.Proposal.NewRecipient = common.Uint168{0x21, 0x51}
+		}
+	}
+	// only normal (and ELIP) proposals carry budgets: the wire formats of the
+	// other types have no budget list
+	if p.Proposal.ProposalType != payload.Normal {
+		p.Proposal.Budgets = []payload.Budget{}
+		p.BudgetsStatus = map[uint8]BudgetStatus{}
+		p.WithdrawableBudgets = map[uint8]common.Fixed64{}
+		p.WithdrawnBudgets = map[uint8]common.Fixed64{}
+	}
+	stake := common.Uint168{0x54, 1}
+	if nd.Bool("publicVotesCast") {
+		c.state.UsedCRCProposalVotes[stake] = []payload.VotesWithLockTime{{Candidate: zzPH.Bytes(), Votes: 7, LockTime: 9}}
+		if nd.Bool("alsoForAnotherProposal") {
+			c.state.UsedCRCProposalVotes[stake] = append(c.state.UsedCRCProposalVotes[stake], payload.VotesWithLockTime{Candidate: th.Bytes(), Votes: 8, LockTime: 9})
+		}
+	}
+	inElection = nd.Bool("inElectionPeriod")
+	return
+}
